@@ -327,6 +327,11 @@ func (p *Prompt) formatRightPrompt(rprompt string, startColumn int) (prompt stri
 	// Check that we have room for a right/tooltip prompt.
 	canPrint = (startColumn+promptLen < termWidth) || startColumn == termWidth
 	if canPrint {
+		// A prompt wider than the terminal gets no padding.
+		if padLen < 0 {
+			padLen = 0
+		}
+
 		prompt = fmt.Sprintf("%s%s", strings.Repeat(" ", padLen), rprompt)
 	}
 
